@@ -67,7 +67,8 @@ def handleC14 (quirks : List String) (op : String) (args : List String) : String
       mapEqOrdered := quirks.contains "mapEqOrdered"
       mapEqOneSided := quirks.contains "mapEqOneSided"
       argListNeverEqual := quirks.contains "argListNeverEqual"
-      ordCalcFlag := quirks.contains "ordCalcFlag" }
+      ordCalcFlag := quirks.contains "ordCalcFlag"
+      ordNonNumberKept := quirks.contains "ordNonNumberKept" }
   let lq : LogicQuirks :=
     { notOnlyOnBool := quirks.contains "notOnlyOnBool"
       notMapUnevaluated := quirks.contains "notMapUnevaluated"
